@@ -298,8 +298,43 @@ def r4_state(ck, cx, sh):
                   detail='unhandled %s' % need, loc=cx.floc(tr, h))
 
 
+def r5_serial_flush(ck, cx):
+    """Recovery on serial lines: left-over bytes of an earlier exchange (late, duplicated or noisy reply) are discarded before
+    the next request is written -- on every path to the write, for every framing the serial client supports: the receive path
+    reads the next reply by position, it cannot skip them."""
+    ck.rule('R5', 'ModbusSerialClient._send drains the receive buffer before every write, whatever the framing (the only ways past the drain: nothing waiting, or in_waiting not implemented)')
+    c = cx.idx.cls('pymodbus.client.sync.ModbusSerialClient')
+    f = cx.method(c, '_send')
+    ck.saw('functions', f.qn)
+
+    def may_raise(node, frame, path):
+        if isinstance(node, ast.Call) and isinstance(node.func, ast.Attribute) and node.func.attr in ('_in_waiting', 'inWaiting'):
+            return ['NotImplementedError']
+        return []
+    n = 0
+    for p in cx.enum(f, c, max_depth=0, may_raise=may_raise):
+        annotate(p, heap=False)
+        wr = [i for i, ev in enumerate(p.ev) if ev.kind == 'call' and callee_name(ev.node) == 'write' and 'socket' in U(ev.node.func.value)]
+        if not wr:
+            continue
+        n += 1
+        before = p.ev[:wr[0]]
+        drained = any(ev.kind == 'call' and callee_name(ev.node) in ('read', 'reset_input_buffer', 'flushInput') and 'socket' in U(ev.node.func.value)
+                      for ev in before)
+        nothing = any(ev.kind == 'cond' and ev.a is False and U(ev._sub).replace(' ', '') in ('self._in_waiting()', 'self._in_waiting()>0', 'self._in_waiting()!=0')
+                      for ev in before)
+        unsupported = any(ev.kind == 'handler' and 'NotImplementedError' in str(ev.a) + str(ev.b) for ev in before)
+        why = [(U(ev._sub)[:50], ev.a) for ev in before if ev.kind == 'cond' and 'in_waiting' not in U(ev._sub) and 'isEnabledFor' not in U(ev._sub)]
+        ck.ob('R5', f.qn, 'the write is preceded by a drain of the receive buffer (or nothing was waiting / in_waiting unsupported)',
+              drained or nothing or unsupported, detail='write-without-drain %s' % sorted(set(map(str, why)))[:3], loc=cx.floc(f),
+              message='ModbusSerialClient._send can write the request without discarding stale input (conditions on the path: %s): a left-over '
+                      'frame is then taken as the reply to this request' % why)
+    ck.floor('R5', n, 2, 'paths to the serial write')
+
+
 def run(ck, tier):
     cx = Ctx()
+    ck.guard(r5_serial_flush, ck, cx)
     sh = TxShape(cx)
     ck.saw('functions', sh.ex.qn)
     ck.guard(r1_bound, ck, cx, sh)
